@@ -44,6 +44,12 @@ def run(ctx):
     # 3. replay into PeerToPeer.onPacket with a real PacketPool of the same geometry
     recs = ctx.go_replay("flood", "TestReplay", inp, shards=ctx.pick(2, 4), timeout=ctx.pick(600, 1800))
     ctx.absorb(recs)
+    # 4. optional: the connection-management model (spec/net/Topology.tla) -- about 50 s more in the quick tier,
+    #    therefore part of the thorough tier and, in the quick tier, behind a switch: VERIF_C33_TOPOLOGY=1 (or on its own: tools/check.py C33_TOPOLOGY quick)
+    import os
+    if os.environ.get("VERIF_C33_TOPOLOGY") == "1" or (not ctx.quick() and os.environ.get("VERIF_C33_TOPOLOGY") != "0"):
+        from props import c33_topology
+        c33_topology.stage(ctx)
     for b in (relay[:2] + table[-1:]):
         ctx.sample([{k: s[k] for k in s if k in ("op", "role", "ctype", "via", "src", "dest", "ttl", "body", "proto", "res")} for s in b])
     return ctx.finish(
